@@ -72,20 +72,22 @@ namespace fs
         {
             auto size = name.size();
             if (size > 0)
+            {
                 if (name[0] == '.')
                 {
                     if (size == 1)
                     {   // the case for '.'
                         continue;
                     }
-                    else if (size == 2)
+                    else if (size == 2 && name[1] == '.')
                     {   // the case for '..'
-                        if (name[1] == '.')
-                            if (--level < 0)
-                                return false;
+                        if (--level < 0)
+                            return false;
+                        continue;
                     }
-                    else ++level;
                 }
+                ++level;    // an ordinary name (including ones that merely begin with dots)
+            }
         }
         return true;
     }
